@@ -419,9 +419,14 @@ pub fn p9_case(ctx: &Ctx, i: usize, id: String) -> Case {
                 }
                 c.nontrivial = true;
             }
-            Ok(Err(_)) => {
+            Ok(Err(e)) => {
                 if !seen.is_empty() && s.written.len() >= 4 && le32(&s.written, 0) == s.used {
                     c.fail("9p request failed although size field and used length agree");
+                }
+                // a non-empty message with room for a whole response header (size[4] type[1] tag[2] = 7
+                // bytes, the full size of Rclunk / Rflush / Rremove) must be sent
+                if seen.is_empty() && !req.is_empty() && rlen >= 7 {
+                    c.fail(format!("9p request of {} bytes with a {}-byte response buffer was refused ({:?}) without reaching the device", req.len(), rlen, e));
                 }
             }
             Err(p) => c.fail(format!("9p request panicked: {}", p)),
